@@ -115,6 +115,48 @@ partial def goRx (s : RSt) : List String → Verdict
       match findRx w with
       | some (n, size) => goRx { s with n := n, size := size, rx := { pool := create n size, held := [] } } rest
       | none => Verdict.corr s!"no rx parameters in {l}"
+    | ["toasync"] => goRx s rest
+    | ["astep"] =>
+      -- the driver's receive on the SAME pool (SocketTcpAsync built from the buffered socket): one task per step
+      let obsLines := rest.takeWhile (fun x => (obs? x).isSome)
+      let rest' := rest.dropWhile (fun x => (obs? x).isSome)
+      let obs := obsLines.filterMap obs?
+      match obs.find? (fun o => o.head? == some "crash" ∨ o.head? == some "hang") with
+      | some o => Verdict.spec (" ".intercalate o) s.tags
+      | none =>
+      match obs.find? (fun o => o.head? == some "arx" ∨ o.head? == some "adisc") with
+      | some ["arx", ord, size] =>
+        match ord.toNat?, size.toNat? with
+        | some ord, some size =>
+          if s.heldObs.contains ord then Verdict.spec s!"driver receive handed out buffer {ord} that the user still holds" s.tags
+          else if s.n > 0 ∧ s.heldObs.length ≥ s.n then Verdict.spec s!"driver receive succeeded with {s.heldObs.length} of N={s.n} buffers held" s.tags
+          else if size = 0 ∨ size > s.size then Verdict.spec s!"receive handler got {size} bytes with rxBufSize {s.size}" s.tags
+          else
+            match rx s.rx.pool s.size (.value size) with
+            | .value b q =>
+              let consistent := match lookupId s.map b, lookupOrd s.map ord with
+                | some o', _ => o' == ord
+                | none, some _ => false
+                | none, none => true
+              if !consistent then Verdict.corr s!"model recycles a different buffer than the implementation ({ord})" s.tags
+              else goRx { s with rx := { pool := q, held := s.rx.held ++ [b] },
+                                 map := if (lookupId s.map b).isSome then s.map else (ord, b) :: s.map,
+                                 heldObs := s.heldObs ++ [ord], tags := "arx.value" :: s.tags } rest'
+            | _ => Verdict.corr s!"model: out of buffers, implementation: driver received into buffer {ord}" s.tags
+        | _, _ => Verdict.corr "bad arx"
+      | some ["adisc", "outofbuffers"] =>
+        if s.n = 0 then Verdict.spec "socket with unlimited receive buffers was disconnected for lack of a buffer" s.tags
+        else if s.heldObs.length < s.n then
+          Verdict.spec s!"driver receive refused ('out of buffers', socket disconnected) while the user holds only {s.heldObs.length} of N={s.n}: a buffer was not returned on some path" s.tags
+        else match rx s.rx.pool s.size .exn with
+          | .outOfBuffers => goRx { s with tags := "arx.full" :: s.tags } rest'
+          | _ => Verdict.corr "model has a buffer, the driver's receive is out of buffers" s.tags
+      | some ("adisc" :: _) =>
+        match rx s.rx.pool s.size .exn with
+        | .exn q => goRx { s with rx := { s.rx with pool := q }, tags := "arx.exn" :: s.tags } rest'
+        | _ => if s.n > 0 ∧ s.heldObs.length ≥ s.n then goRx { s with tags := "arx.exn" :: s.tags } rest'
+               else Verdict.corr "model: out of buffers, implementation: receive failed otherwise" s.tags
+      | _ => goRx { s with tags := "arx.idle" :: s.tags } rest'
     | [op, _T] =>
       if op == "recvhold" ∨ op == "recvfromhold" then
         -- collect observations up to the result
